@@ -137,7 +137,9 @@ func c16Record(tier string, seed int64, emit func(interface{})) {
 	for i := 0; i < n; i++ {
 		var lines []string
 		for j := 0; j < rng.Intn(12); j++ { // arbitrary header prose (no <1>..<8> tags)
-			switch rng.Intn(4) {
+			switch rng.Intn(5) {
+			case 4: // prose that MENTIONS the field tags in the middle of a sentence
+				lines = append(lines, "    Each record runs from <1> (the enzyme name) to <8> (references); <3> holds the site.")
 			case 0:
 				lines = append(lines, "")
 			case 1:
